@@ -210,6 +210,8 @@ def run_impl(sc):
                         env.schedule_event(x[1] / TICK, -5, mk(3, x[3]), x[2] / PRIO)
                     elif k == 'init':
                         if late:
+                            if not any(y[0] == 'run' for y in sc['ext'][:sc['ext'].index(x)]):
+                                raise Discard('a late scenario starts with a run')      # (a shrunk scenario that lost it)
                             sched = create()          # the System is initialised: constructing the asset starts it
                         elif nested:
                             # what System.simulate does first: the maker, initialised, creates the scheduler, which is initialised in turn
